@@ -305,7 +305,7 @@ def main(tier="quick", seed=0, only=None):
         for child in explore.children(probe, 0, bound):
             tasks.append(("P3", (child, bound, seed)))
     with Pool() as pool:
-        res = pool.map(f"{MODULE}:shard", tasks, soft=1800)
+        res = pool.map(f"{MODULE}:shard", tasks, soft=900, hard=1000)
     res = chk.isolate(f"{MODULE}:shard", tasks, res, split=lambda t: [(t[0], [c]) for c in t[1]] if t[0] != "P3" else [],
                       case_of=lambda s: {"case": s[1][0]}, sig_of=lambda s, st: sig(s[1][0], "interpreter-died" if st == "crash" else "hang"))
     for t, r in zip(tasks, res):
